@@ -180,7 +180,7 @@ def registry_forget_rule(ctx, rule):
             continue
         seen.add(key)
         ctx.analysed(s.func.path)
-        if host == "push_obj":
+        if host == "push_obj" and method_name(s) in ("remove", "remove_entry"):
             rule.ok(key, "the restart arm of push_obj (its scenarios are decided by C01.R7)", s.loc)
             continue
         fl = flows.setdefault(s.func.path, Flow(s.body))
